@@ -179,3 +179,30 @@ SPECS["C06"] = v2spec(
     floor_nontrivial={"quick": 600, "thorough": 9000},
     timeout={"quick": 1500, "thorough": 3 * 3600},
 )
+
+SPECS["C07"] = v2spec(
+    "TestVerifC07",
+    title="detection does not depend on position or surrounding unrelated text",
+    rule=("case = one text X (exact / 5-15-20% edited / head- or tail-truncated corpus document, concatenation, scenario file) matched in six placements: alone, suffix only, prefix only, both, "
+          "far (prefix of ~8000 filler tokens) and far' (far + 3 lines, other suffix). Oracle: all prefixed placements agree pairwise after shifting token indices/lines by the prefix size (strict); "
+          "alone == suffix-only (strict); alone == prefixed unless the signature of KF-C07-1 holds (only noisy matches differ, prefixed placements mutually equal). "
+          "Non-trivial = X has at least one license match; distinct = distinct X."),
+    floor_evals={"quick": 700, "thorough": 8000},
+    floor_nontrivial={"quick": 400, "thorough": 4000},
+    timeout={"quick": 1500, "thorough": 3 * 3600},
+)
+
+SPECS["C08"] = v2spec(
+    "TestVerifC08",
+    title="streaming input equals in-memory input; reader faults surface as errors",
+    level="fault_enumeration",
+    exhaustive=True,
+    rule=("For each selected input (license texts <= 6 KiB spiced with multi-byte runes, invalid/truncated UTF-8, entities and hyphen+newline; two fixed edge texts): "
+          "(1) 9 fragmenting readers (1 byte per Read, chunks 1..7, 1..2000, fixed 1020/1024/1028, data together with EOF, interleaved zero-length reads, half reads): MatchFrom == Match; "
+          "(2) EVERY pad width 0..2*1024+8 of leading spaces: Match(pad+bytes) == Match(bytes); (3) EVERY failure offset 0..len(input), error delivered alone and together with the last bytes: "
+          "MatchFrom returns exactly the injected error, no matches, TotalInputLines 0, no panic. Larger inputs (<= 60 KB) and the scenario files get the readers and 200 sampled failure offsets. "
+          "exhaustive=true refers to the pad-width and failure-offset sub-spaces of the selected inputs. Non-trivial = input with >= 1 match (readers/pads) or any failure block; distinct = distinct (input, block)."),
+    floor_evals={"quick": 500, "thorough": 4000},
+    floor_nontrivial={"quick": 300, "thorough": 2500},
+    timeout={"quick": 1500, "thorough": 3 * 3600},
+)
